@@ -19,6 +19,7 @@ def hooks():
     def post_P(I, e, fn, args, kws, r):
         r = r.copy()
         r.tags["corner_cloud"] = True        # one row per corner of the intensity box, in the order of itertools.product
+        r.tags["maybe_zero_rows"] = True     # the dark corner (all sources at lb = 0, no baseline) is an all-zero capture
         return r
     return {"pre": {f"{CONVEX}:in_hull": pre_in_hull}, "post": {f"{CONVEX}:get_P_from_A": post_P}}
 
@@ -36,6 +37,13 @@ def corner_subset(rep, res, entry):
         if not pf.tag("corner_cloud"):
             continue
         n += 1
+        cz = pf.tag("coordinate_zero_subset")
+        if cz is not None:
+            rep.violated("R-FLOW", "only all-zero rows are removed from the corner cloud", where=ev.loc, construct=ev.text(), entry=entry,
+                         config=res.config,
+                         msg=f"`{cz}` selects rows by whether ANY coordinate is zero: every corner whose capture has a zero in some channel (a "
+                             f"source that does not excite one receptor) is dropped, not only the all-zero (dark) corner — the chromatic hull "
+                             f"loses genuine vertices")
         ps = pf.tag("positional_subset")
         rep.check("R-FLOW", "no corner of the box is dropped by position", ps is None, where=ev.loc, construct=ev.text(), entry=entry,
                   config=res.config,
@@ -228,6 +236,17 @@ def relative_forwarding(rep, an, method, kws_of, callee_names, tier, extra_field
                 v = bound.get(p)
                 rep.check("R-FORWARD", f"live {origin} → {fn.name}({p}=)", v is not None and origin in v.flat().data, where=ev.loc,
                           construct=f"{fn.name}(… {p}= …) in {ev.fn.name}", entry=ent, config=res.config)
+            vb = bound.get("B")
+            if vb is not None and "B" in kw and any(o == "B" or o.startswith("B|") for o in vb.flat().data):
+                from ..values import plain_dep
+                okb, how = plain_dep(vb.flat().data, "B")
+                if not okb and not how:
+                    how = sorted(o for o in vb.flat().data if o.startswith("B|"))
+                rep.check("R-FORWARD", f"targets reach {fn.name} as given", okb, where=ev.loc, construct=f"{fn.name}(B, …) in {ev.fn.name}",
+                          entry=ent, config=res.config,
+                          msg=f"the targets handed to the geometry layer are a clamped / rounded / projected image of the caller's targets "
+                              f"({', '.join(how)}): the answer is computed for different captures (an absolute quantisation also breaks unit "
+                              f"equivariance)")
     return out
 
 
@@ -303,4 +322,21 @@ def no_projected_decision(rep, res, entry, fname="in_hull", origin="B"):
                       msg=f"on this path the membership answer depends on `{origin}` only through a rank-truncated projection (coordinates in "
                           f"the span of the vertex set): the component of a target orthogonal to the span is ignored, so targets off a flat "
                           f"gamut whose projection falls inside it are reported in gamut")
+    return n
+
+
+def zero_rows(rep, res, entry):
+    """rows without a chromaticity (all-zero captures: all-zero targets, the dark corner of the gamut when lb = 0 and there is no
+    baseline) never reach the L1 normalisation of the chromatic reduction, where a zero row is mapped onto a simplex corner"""
+    n = 0
+    for ev in res.events("zero_rows_to_chroma"):
+        n += 1
+        rep.violated("R-ZERO", "all-zero rows never reach the chromatic reduction", where=ev.loc,
+                     construct=f"{ev.text()} (reached via {' → '.join(q.split('.')[-1] for q in ev.path)})", entry=entry, config=res.config,
+                     msg="an array that may contain all-zero rows (no chromaticity) is L1-normalised: the zero row is mapped onto the simplex "
+                         "corner of the first receptor and takes part in the in-gamut test / the common factor")
+    for ev in res.events("chroma_of_targets"):
+        n += 1
+        rep.holds("R-ZERO", "all-zero rows never reach the chromatic reduction", where=ev.loc, construct=ev.text(), entry=entry,
+                  config=res.config, msg="zero rows were removed or replaced before the reduction")
     return n
